@@ -16,7 +16,7 @@ import (
 func Run(r *core.Run) {
 	nKeys := core.Pick(r, 64, 1024)
 	r.Rule = fmt.Sprintf("keys: %d per type x 5 types x 5 nonce variants x {sha2-256, sha2-512}: reveal/commitment/derivation identities against the reference, all commitments pairwise distinct; "+
-		"chains: every sequence create (update|recover)^<=3 deactivate x 3 key-type assignments + mixed x 2 algorithms, linkage of every edge through the parser; "+
+		"chains: every sequence create (update|recover)^<=3 deactivate x 3 key-type assignments + mixed x 2 algorithms, and every non-constant assignment of the two algorithms to the operations of a chain (algorithm migration), linkage of every edge through the parser; "+
 		"distinct = distinct (key, nonce, algorithm) commitments and distinct chain edges; non-trivial = all", nKeys)
 	r.Assumptions = []string{"reference: reveal = mh(code, JCS(jwk)), commitment = mh(code, H(JCS(jwk))) with the JWK model {kty, crv, x, y[, nonce]}", "chains are built by the harness generator with fresh keys per step"}
 	nonces := []string{"", "AAAAAAAAAAAAAAAAAAAAAA", "_____________________w", "AQIDBAUGBwgJCgsMDQ4PEA", "AAAAAAAAAAAAAAAAAAAAAQ"}
@@ -116,12 +116,27 @@ func Run(r *core.Run) {
 		types   []string
 		code    uint
 		flavour int // 0 plain; 1 anchoring window + anchor origin on every operation that can carry them
+		sched   []uint // algorithm of the commitments made by create (index 0) and by step i (index i+1); nil = code throughout
 	}
 	var jobs []job
 	for _, s := range seqs {
 		for _, ta := range typeAssign {
 			for _, code := range codes {
-				jobs = append(jobs, job{s, ta, code, 0}, job{s, ta, code, 1})
+				jobs = append(jobs, job{s, ta, code, 0, nil}, job{s, ta, code, 1, nil})
+			}
+		}
+	}
+	// algorithm migration: every non-constant assignment of the two algorithms to the operations of a chain (a commitment made
+	// under one algorithm is revealed under that algorithm by an operation that commits under the other)
+	for _, s := range seqs {
+		n := len(s) + 1
+		for mask := 1; mask < 1<<n-1; mask++ {
+			var sched []uint
+			for i := 0; i < n; i++ {
+				sched = append(sched, codes[mask>>i&1])
+			}
+			for _, ta := range [][]string{typeAssign[0], typeAssign[3]} {
+				jobs = append(jobs, job{s, ta, 0, mask % 2, sched})
 			}
 		}
 	}
@@ -129,8 +144,19 @@ func Run(r *core.Run) {
 		j := jobs[ji]
 		p := ops.Proto()
 		p.MultihashAlgorithms = []uint{j.code}
+		if j.sched != nil {
+			p.MultihashAlgorithms = codes
+		}
 		parser := operationparser.New(p)
 		code := uint64(j.code)
+		codeAt := func(i int) uint64 { // algorithm of the commitments made by create (0) / step i-1
+			if j.sched == nil {
+				return code
+			}
+			return uint64(j.sched[i])
+		}
+		code = codeAt(0)
+		updCode, recCode := code, code // algorithms of the commitments in force
 		n := 0
 		fresh := func() *keys.Key {
 			k := keys.New(j.types[n%len(j.types)], 100+n)
@@ -147,7 +173,7 @@ func Run(r *core.Run) {
 		suffix := ops.Suffix(create, code)
 		// commitment in force, and where it was carried
 		updC, recC := create["delta"].(ops.M)["updateCommitment"].(string), create["suffixData"].(ops.M)["recoveryCommitment"].(string)
-		id0 := fmt.Sprintf("chain/%s/%v/%d/%d", j.seq, j.types, j.code, j.flavour)
+		id0 := fmt.Sprintf("chain/%s/%v/%d%v/%d", j.seq, j.types, j.code, j.sched, j.flavour)
 		r.Case(id0+"/create", func() *core.Fail {
 			b := ops.Bytes(create)
 			if _, err := parser.GetRevealValue(b); err == nil {
@@ -161,23 +187,30 @@ func Run(r *core.Run) {
 			var wantPrev string
 			var nextUpdC, nextRecC = updC, recC
 			var wantNext string
+			nc := code // algorithm of this operation's own hashes and new commitments
+			if st != 'd' {
+				nc = codeAt(si + 1)
+			}
 			switch st {
 			case 'u':
 				nk := fresh()
-				req = ops.ValidUpdate(suffix, upd, nk, patch, code, win)
+				d := ops.Delta(ops.Commitment(nk, nc), patch)
+				req = ops.Request("update", suffix, ops.Reveal(upd, updCode), ops.Sign(upd, ops.UpdatePayload(upd, ops.HashOf(d, nc), win)), d)
 				wantPrev = updC
-				upd = nk
-				nextUpdC = ops.Commitment(nk, code)
+				upd, updCode = nk, nc
+				nextUpdC = ops.Commitment(nk, nc)
 				wantNext = nextUpdC
 			case 'r':
 				nr, nu := fresh(), fresh()
-				req = ops.ValidRecover(suffix, rec, nr, nu, patch, code, origin, win)
+				d := ops.Delta(ops.Commitment(nu, nc), patch)
+				req = ops.Request("recover", suffix, ops.Reveal(rec, recCode), ops.Sign(rec, ops.RecoverPayload(rec, ops.HashOf(d, nc), ops.Commitment(nr, nc), origin, win)), d)
 				wantPrev = recC
-				rec, upd = nr, nu
-				nextRecC, nextUpdC = ops.Commitment(nr, code), ops.Commitment(nu, code)
+				rec, upd, recCode, updCode = nr, nu, nc, nc
+				nextRecC, nextUpdC = ops.Commitment(nr, nc), ops.Commitment(nu, nc)
 				wantNext = nextRecC
 			case 'd':
-				req = ops.ValidDeactivate(suffix, rec, code, win)
+				rv := ops.Reveal(rec, recCode)
+				req = ops.Request("deactivate", suffix, rv, ops.Sign(rec, ops.DeactivatePayload(rec, suffix, rv, win)), nil)
 				wantPrev = recC
 				wantNext = ""
 			}
